@@ -436,7 +436,11 @@ class GraphBasedModelConstructor:
             if reference_isoform:
                 # adding FL reference isoform
                 if reference_isoform in GraphBasedModelConstructor.detected_known_isoforms:
-                    pass
+                    # the isoform was already reported for another path of this gene:
+                    # the reads of this path support it as well, whatever the order of the paths
+                    if any(m.transcript_id == reference_isoform for m in self.transcript_model_storage):
+                        for read_assignment in self.path_storage.paths_to_reads[path]:
+                            self.save_assigned_read(read_assignment, reference_isoform)
                 elif count < self.params.min_known_count:
                     pass # logger.debug("uuu Isoform %s has low coverage %d" % (reference_isoform, count))
                 else:
